@@ -20,14 +20,39 @@ class InjectedError(Exception):
     pass
 
 
+class InjectedOSError(InjectedError, OSError):
+    pass
+
+
+class InjectedFileNotFound(InjectedError, FileNotFoundError):
+    pass
+
+
+class InjectedValueError(InjectedError, ValueError):
+    pass
+
+
+class InjectedKeyError(InjectedError, KeyError):
+    pass
+
+
+class InjectedEOFError(InjectedError, EOFError):
+    pass
+
+
+# the kinds of error item processing realistically raises (I/O, decoding, lookup, arithmetic, generic)
+ERROR_KINDS = [InjectedError, InjectedOSError, InjectedValueError, InjectedFileNotFound, InjectedKeyError, InjectedEOFError]
+
+
 class Recorder(object):
     """Shared (never forked) history recorder + fault plan."""
 
-    def __init__(self, sim, nyield=0, fail_at=None, fail_kind="callback"):
+    def __init__(self, sim, nyield=0, fail_at=None, fail_kind="callback", error_cls=InjectedError):
         self.sim = sim
         self.nyield = nyield
         self.fail_at = fail_at          # fail on the k-th started item (0-based), or None
         self.fail_kind = fail_kind
+        self.error_cls = error_cls
         self.nstart = 0
         self.serial = None              # list when used outside a simulation
         self.injected = None
@@ -50,7 +75,10 @@ class Recorder(object):
                 self.sim.injected_at = (self.sim.step, self.sim.now)
                 self.sim.vtime_cap = self.sim.now + 610.0
                 self.sim.stop_faults()
-            raise InjectedError("injected failure while processing item %r" % (key,))
+            if issubclass(self.error_cls, OSError):
+                import errno
+                raise self.error_cls(errno.EIO, "injected failure while processing item %r" % (key,))
+            raise self.error_cls("injected failure while processing item %r" % (key,))
         for _ in range(self.nyield):
             if self.sim is not None:
                 self.sim.yield_point("cb")
